@@ -433,7 +433,7 @@ var SetterValues = map[string][]string{
 	"hostname": {"", "h", "H%41", "h:81", ":81", "[::1]", "[::1", "1.2.3.4", "0x7f.1", "1.2.3.4.5", "a b", "x/y", "h?q", "h#f", "h\\p", "localhost", "é", "xn--", "\t\n"},
 	"port":     {"", "0", "80", "443", "21", "8080", "65535", "65536", "8080x", "x80", "+80", " 81", "0081", "99999999999999999999", "8\t1", "８", "8１", "٣", "\t\n"},
 	"pathname": {"", "/", "a", "/a/b", "//x", "/.//x", "..", "/a/../b", "C|", "/C|/x", "\\a", "?#", " ", "%2e%2E", "a%zz", "/a\tb", "\t\n"},
-	"search":   {"", "?", "?a=b", "a b'\"#x", "??", "a=1&a=2&b", "%zz é", "a=1\t2&b=\n3", "\xff=\xfe%", "\t\n"},
+	"search":   {"", "?", "?a=b", "a b'\"#x", "??", "a=1&a=2&b", "%zz é", "a=1\t2&b=\n3", "\xff=\xfe%", "\t\n", "a=1&=2&&="},
 	"hash":     {"", "#", "#a", "a b`<", "##", "é\x00", "a\tb\n", "\t\n"},
 }
 
